@@ -1,0 +1,190 @@
+//! Runtime-verification hooks. Compiled only with the off-by-default `verif-hooks` feature.
+//! Nothing in here is reachable from a normal build.
+//!
+//! Two small runtimes live here:
+//!
+//! * a per-thread *storage plan* - every statement of a sqlite write transaction passes
+//!   `storage_point`, which can count, fail or abort the process at the n-th call.
+//! * a per-thread *pause controller* - named points between existing snapshot-acquisition and
+//!   commit-publication steps where an external controller may park the calling thread.
+//!
+//! Both are inert (one thread-local read) unless a harness arms them on the calling thread.
+
+use crate::prelude::OperationError;
+use std::cell::{Cell, RefCell};
+use std::sync::{Arc, Condvar, Mutex};
+use std::time::Duration;
+
+// ===== storage plan =====
+
+#[derive(Debug, Clone, Copy, PartialEq, Eq)]
+pub enum StoragePlan {
+    /// Hooks do nothing.
+    Off,
+    /// Count and log storage points only.
+    Count,
+    /// The n-th storage point (1 based) on this thread returns an error.
+    FailAt(u64),
+    /// The n-th storage point (1 based) on this thread aborts the process.
+    AbortAt(u64),
+}
+
+thread_local! {
+    static STORAGE_PLAN: Cell<StoragePlan> = const { Cell::new(StoragePlan::Off) };
+    static STORAGE_COUNT: Cell<u64> = const { Cell::new(0) };
+    static STORAGE_LOG: RefCell<Vec<&'static str>> = const { RefCell::new(Vec::new()) };
+    static PAUSE_CTL: RefCell<Option<(Arc<PauseCtl>, &'static str)>> = const { RefCell::new(None) };
+}
+
+/// Arm the storage plan for the calling thread and reset its counter and log.
+pub fn storage_set(plan: StoragePlan) {
+    STORAGE_PLAN.with(|p| p.set(plan));
+    STORAGE_COUNT.with(|c| c.set(0));
+    STORAGE_LOG.with(|l| l.borrow_mut().clear());
+}
+
+/// How many storage points the calling thread passed since `storage_set`.
+pub fn storage_count() -> u64 {
+    STORAGE_COUNT.with(|c| c.get())
+}
+
+/// The kinds of the storage points passed since `storage_set`, in order.
+pub fn storage_log() -> Vec<&'static str> {
+    STORAGE_LOG.with(|l| l.borrow().clone())
+}
+
+/// Called by the sqlite layer before each statement of a write transaction.
+pub fn storage_point(kind: &'static str) -> Result<(), OperationError> {
+    let plan = STORAGE_PLAN.with(|p| p.get());
+    if plan == StoragePlan::Off {
+        return Ok(());
+    }
+    let n = STORAGE_COUNT.with(|c| {
+        let n = c.get() + 1;
+        c.set(n);
+        n
+    });
+    STORAGE_LOG.with(|l| l.borrow_mut().push(kind));
+    match plan {
+        StoragePlan::FailAt(k) if k == n => {
+            // One shot: a retry of the same transaction must be able to proceed.
+            STORAGE_PLAN.with(|p| p.set(StoragePlan::Count));
+            Err(OperationError::BackendEngine)
+        }
+        StoragePlan::AbortAt(k) if k == n => std::process::abort(),
+        _ => Ok(()),
+    }
+}
+
+// ===== pause controller =====
+
+#[derive(Default)]
+struct PauseState {
+    /// (role, point) at which the next arrival parks.
+    armed: Option<(&'static str, &'static str)>,
+    /// (role, point) currently parked.
+    parked: Option<(&'static str, &'static str)>,
+    /// Set by the controller to let the parked thread continue.
+    release: bool,
+    /// Every (role, point) arrival in order.
+    trace: Vec<(&'static str, &'static str)>,
+}
+
+#[derive(Default)]
+pub struct PauseCtl {
+    state: Mutex<PauseState>,
+    cv: Condvar,
+}
+
+impl PauseCtl {
+    pub fn new() -> Arc<Self> {
+        Arc::new(Self::default())
+    }
+
+    /// Ask that the next arrival of `role` at `point` parks until `release`.
+    pub fn arm(&self, role: &'static str, point: &'static str) {
+        if let Ok(mut st) = self.state.lock() {
+            st.armed = Some((role, point));
+            st.release = false;
+        }
+    }
+
+    /// Remove any armed point that has not been hit.
+    pub fn disarm(&self) {
+        if let Ok(mut st) = self.state.lock() {
+            st.armed = None;
+        }
+    }
+
+    /// Wait until a thread is parked. False on timeout.
+    pub fn wait_parked(&self, timeout: Duration) -> bool {
+        let Ok(st) = self.state.lock() else {
+            return false;
+        };
+        match self
+            .cv
+            .wait_timeout_while(st, timeout, |st| st.parked.is_none())
+        {
+            Ok((st, _)) => st.parked.is_some(),
+            Err(_) => false,
+        }
+    }
+
+    pub fn is_parked(&self) -> bool {
+        self.state
+            .lock()
+            .map(|st| st.parked.is_some())
+            .unwrap_or(false)
+    }
+
+    /// Let the parked thread continue.
+    pub fn release(&self) {
+        if let Ok(mut st) = self.state.lock() {
+            st.release = true;
+            st.armed = None;
+            self.cv.notify_all();
+        }
+    }
+
+    /// All (role, point) arrivals so far.
+    pub fn trace(&self) -> Vec<(&'static str, &'static str)> {
+        self.state
+            .lock()
+            .map(|st| st.trace.clone())
+            .unwrap_or_default()
+    }
+
+    fn arrive(&self, role: &'static str, point: &'static str) {
+        let Ok(mut st) = self.state.lock() else {
+            return;
+        };
+        st.trace.push((role, point));
+        if st.armed == Some((role, point)) {
+            st.armed = None;
+            st.parked = Some((role, point));
+            self.cv.notify_all();
+            while !st.release {
+                st = match self.cv.wait(st) {
+                    Ok(st) => st,
+                    Err(_) => return,
+                };
+            }
+            st.parked = None;
+            st.release = false;
+            self.cv.notify_all();
+        }
+    }
+}
+
+/// Attach (or detach) a pause controller to the calling thread under a role name.
+pub fn pause_attach(ctl: Option<(Arc<PauseCtl>, &'static str)>) {
+    PAUSE_CTL.with(|c| *c.borrow_mut() = ctl);
+}
+
+/// A named point between two existing steps. Inert unless the thread has a controller.
+pub fn pause(point: &'static str) {
+    let ctl = PAUSE_CTL.with(|c| c.borrow().clone());
+    if let Some((ctl, role)) = ctl {
+        ctl.arrive(role, point);
+    }
+}
